@@ -84,13 +84,14 @@ def ref_add_subcircuit(R, child, name, conns):
             R["nodes"][tgt][1] = [x]
         else:
             src = f"{name}_{k}"
-            if not _can_be_driven(R, x) or x == src:
-                raise Invalid("illegal output connection")
-            if not _can_drive(R, src, R["nodes"][x][0]):
-                raise Invalid("illegal output connection")
-            if src in R["nodes"][x][1]:
-                raise Invalid("dup")
-            R["nodes"][x][1] = R["nodes"][x][1] + [src]
+            for x1 in ([x] if isinstance(x, str) else list(x)):     # one net or a list of nets
+                if not _can_be_driven(R, x1) or x1 == src:
+                    raise Invalid("illegal output connection")
+                if not _can_drive(R, src, R["nodes"][x1][0]):
+                    raise Invalid("illegal output connection")
+                if src in R["nodes"][x1][1]:
+                    raise Invalid("dup")
+                R["nodes"][x1][1] = R["nodes"][x1][1] + [src]
     return R
 
 
@@ -312,6 +313,11 @@ def gen(rng, tier):
                     b = f"b{cnt}"
                     pre.append(["add", b, "buf", []])
                     conns[p] = b
+                    if p not in ins and rng.random() < 0.25:
+                        # an output fanning out to several parent nets: the connection value is a list
+                        cnt += 1
+                        pre.append(["add", f"b{cnt}", "buf", []])
+                        conns[p] = [b, f"b{cnt}"]
             if invalid:
                 kind = rng.choice(("badkey", "badnet"))
                 if kind == "badkey":
